@@ -37,6 +37,9 @@ func runC18(p *Prog, r *Report) {
 	if want("C18.5") {
 		ruleReadOnlyNeverMutates(p, r, "C18.5")
 	}
+	if want("C18.11") {
+		ruleReadOnlyReplayKept(p, r, "C18.11")
+	}
 	if want("C18.10") {
 		ruleFileNameTables(p, r, "C18.10")
 	}
